@@ -1,6 +1,8 @@
 package sym
 
 import (
+	"crypto/md5"
+	"encoding/hex"
 	"fmt"
 	"go/types"
 	"math"
@@ -379,6 +381,25 @@ func buildIntrinsics() map[string]intrinsic {
 		return ex.st.F
 	}
 	m["github.com/q191201771/naza/pkg/nazaerrors.Wrap"] = func(ex *Exec, fn *ssa.Function, a []Value) Value { return a[0] }
+	m["github.com/q191201771/naza/pkg/nazamd5.Md5"] = func(ex *Exec, fn *ssa.Function, a []Value) Value {
+		bs := ex.bytesOf(a[0].(Slice))
+		raw := make([]byte, len(bs))
+		for i, b := range bs {
+			if b.Op != OConst {
+				// uninterpreted digest of symbolic data: 32 arbitrary lowercase hex characters
+				out := ex.freshBytes("md5", 32)
+				for _, o := range out {
+					lo := ex.st.And(ex.st.Cmp(OUle, ex.st.Const(8, '0'), o), ex.st.Cmp(OUle, o, ex.st.Const(8, '9')))
+					hi := ex.st.And(ex.st.Cmp(OUle, ex.st.Const(8, 'a'), o), ex.st.Cmp(OUle, o, ex.st.Const(8, 'f')))
+					ex.assume(ex.st.Or(lo, hi))
+				}
+				return Str{B: out}
+			}
+			raw[i] = byte(b.Val)
+		}
+		sum := md5.Sum(raw)
+		return ex.mkStr(hex.EncodeToString(sum[:]))
+	}
 	m["encoding/hex.Dump"] = func(ex *Exec, fn *ssa.Function, a []Value) Value { return ex.mkStr("<hexdump>") }
 	m["os.Exit"] = func(ex *Exec, fn *ssa.Function, a []Value) Value {
 		ex.require(ex.st.F, "os.Exit called")
